@@ -567,6 +567,15 @@ fn main() {
         let arith: Vec<usize> = (0..n).map(|i| 7 + i * 5).collect();
         run(&mut ctx, "h-large-arithmetic-loose-u", &arith, 64 * 5 * n, &[Builder::Extend]);
     }
+    // (i) an inventory block of the selectors on the upper bits (4096 ones) spanning exactly 2^16 - 1, 2^16 and
+    // 2^16 + 1 bits (the boundary between 16-bit and 32-bit subinventories): with l = 1 the one of element i
+    // sits at (x_i >> 1) + i, so after 8192 dense elements a jump to J makes the second block span (J >> 1) + 2048
+    for j in [126_974usize, 126_976, 126_978, 2 * (65_536 * 2 - 2048), 2 * (65_536 * 2 - 2048) + 2] {
+        let n = 40_000usize;
+        let s: Vec<usize> = (0..8192).chain((8192..n).map(|i| j + (i - 8192))).collect();
+        let last = *s.last().unwrap();
+        run(&mut ctx, "i-inventory-span-at-the-16/32-bit-boundary", &s, (4 * n - 1).max(last), &[Builder::Push]);
+    }
     if prop == "C03" {
         invalid_pushes(&mut ctx);
         invalid_slices(&mut ctx);
